@@ -320,8 +320,8 @@ func ExecC12(f []string) string {
 		resolve.SortVersions(vs)
 		return "ok " + EncRealList(sys, PName, vs)
 	case len(f) == 3 && f[0] == "classify":
-		// the harness's copies of the decidable hypotheses of the partial theorems
-		// (finding classifiers); the driver answers with the Lean predicates
+		// the harness's copy of the decidable hypothesis of the partial theorems
+		// (finding classifier); the driver answers with the Lean predicate
 		sys, ok := SysByName[f[1]]
 		if !ok {
 			return "bad-op"
@@ -333,7 +333,7 @@ func ExecC12(f []string) string {
 			}
 			return 0
 		}
-		return fmt.Sprintf("ok lawful=%d tagsexact=%d", b(Lawful(Semver(sys), Strings(vs))), b(TagsExact(vs)))
+		return fmt.Sprintf("ok lawful=%d", b(Lawful(Semver(sys), Strings(vs))))
 	}
 	return "bad-op"
 }
